@@ -112,7 +112,10 @@ class Frames(Sub):
 
 # ------------------------------------------------------------------ verbatim
 
-tag_item = st.one_of(anytext, anytext, anytext, st.integers(-2**63, 2**63 - 1), st.booleans(), st.none(),
+hex64 = st.sampled_from(["5c83da77af1dec6d7289834998ad7aafbd9e2191396d75ec3cc27f5a77226f36",
+                         "5C83DA77AF1DEC6D7289834998AD7AAFBD9E2191396D75EC3CC27F5A77226F36",
+                         "5c83DA77af1dec6d7289834998ad7aafbd9e2191396d75ec3cc27f5a77226F36", "00" * 32, "FF" * 32, "ab" * 31])
+tag_item = st.one_of(anytext, anytext, anytext, hex64, st.integers(-2**63, 2**63 - 1), st.booleans(), st.none(),
                      st.floats(allow_nan=False, allow_infinity=False, width=32),
                      st.lists(st.one_of(anytext, st.integers(0, 9)), max_size=2), st.just("x" * 300))
 
